@@ -30,14 +30,24 @@ func main() {
 	D, E := 2, 1
 	budget := 100 * time.Second
 	if run.Thorough() {
-		D, E = 3, 2
+		D, E = 3, 1 // small scenarios get E+1 (see Bounds)
 		budget = 15 * time.Minute
 	}
 	run.Set("delay_bound", D)
 	run.Set("server_deviation_bound", E)
 	run.Sample(map[string]any{"scenario": "S2-3callers-obj-bool-err", "choices": []int{0, 0, 0, 1, 0, 0, 2}, "meaning": "index of the chosen alternative at each scheduling point; 0 = default (keep running / lowest thread id / oldest queued answer as a plain message)"})
 	(&sess.XSpec{Run: run, Scenarios: scenarios(), Budget: budget,
-		Bounds:     func(*sess.Scenario) sched.Bounds { return sched.Bounds{Preemptions: -1, Delays: D, EnvDev: E} },
+		Bounds: func(sc *sess.Scenario) sched.Bounds {
+			ops := 0
+			for _, c := range sc.Callers {
+				ops += len(c)
+			}
+			if ops <= 2 || len(sc.Callers) == 1 {
+				// small scenarios get one more server deviation (two results re-ordered AND grouped / gzip-packed)
+				return sched.Bounds{Preemptions: -1, Delays: D, EnvDev: E + 1}
+			}
+			return sched.Bounds{Preemptions: -1, Delays: D, EnvDev: E}
+		},
 		Judge:      judge,
 		NonTrivial: sess.AnyReturned,
 	}).Main()
